@@ -206,22 +206,34 @@ def check_sweep(ctx, cirq, rng, circuit, qids):
     import sympy
 
     syms = [sympy.Symbol('a'), sympy.Symbol('b')]
-    new_moments, used = [], 0
+    new_moments, makers, used = [], [], 0
     for moment in circuit:
-        new_ops = []
+        new_ops, mk_ops = [], []
         for op in moment.operations:
             g = op.gate
             if isinstance(g, cirq.EigenGate) and rng.random() < 0.4 and not cirq.is_parameterized(op):
                 expr = rng.choice([syms[0], syms[1], syms[0] + syms[1], 2 * syms[0], syms[1] - 0.5])
                 new_ops.append((g**1)._with_exponent(expr).on(*op.qubits))
+                mk_ops.append(lambda env, g=g, op=op, expr=expr: (g**1)._with_exponent(float(expr.subs(env))).on(*op.qubits))
+                used += 1
+            elif isinstance(g, cirq.ControlledGate) and isinstance(g.sub_gate, cirq.EigenGate) and rng.random() < 0.7 and not cirq.is_parameterized(op):
+                # a symbolic gate under controls with any control values: resolution must keep the controls as they are
+                expr = rng.choice([syms[0], syms[1], syms[0] + syms[1]])
+                ctl = lambda sub, g=g: cirq.ControlledGate(sub, num_controls=g.num_controls(), control_values=g.control_values, control_qid_shape=g.control_qid_shape)
+                new_ops.append(ctl((g.sub_gate**1)._with_exponent(expr)).on(*op.qubits))
+                mk_ops.append(lambda env, g=g, op=op, expr=expr, ctl=ctl: ctl((g.sub_gate**1)._with_exponent(float(expr.subs(env)))).on(*op.qubits))
                 used += 1
             else:
                 new_ops.append(op)
+                mk_ops.append(lambda env, op=op: op)
         new_moments.append(cirq.Moment(new_ops))
+        makers.append(mk_ops)
     if not used:
         return
     sym_circuit = cirq.Circuit(new_moments)
     resolvers = [cirq.ParamResolver({'a': rng.choice([0, 0.5, 1, 0.37]), 'b': rng.choice([0.25, -1, 1.5, 0.11])}) for _ in range(3)]
+    # the numeric circuit of each resolver is built here by substituting into the expressions (not by Cirq's resolution)
+    numeric = lambda r: cirq.Circuit(cirq.Moment(mk({syms[0]: r.param_dict['a'], syms[1]: r.param_dict['b']}) for mk in mk_ops) for mk_ops in makers)
     order = list(qids)
     rng.shuffle(order)
     dims = [2] * len(order)
@@ -231,7 +243,7 @@ def check_sweep(ctx, cirq, rng, circuit, qids):
     basis[k] = 1
     reqs = []
     for r in resolvers:
-        ops, cuts = to_lines(cirq, cirq.resolve_parameters(sym_circuit, r), order)
+        ops, cuts = to_lines(cirq, numeric(r), order)
         reqs.append({'p': 'C01', 'op': 'run', 'shape': dims, 'init': [common.c2j(z) for z in basis], 'ops': ops, 'cuts': []})
     outs = ctx.driver.ask(reqs)
     for split in (False, True):
